@@ -64,8 +64,7 @@ SEEDS = {
  "C20-m2": ("C20", "a list element that is a complex term or list containing a double-quoted atom", ["C20"]),
  "C21-m1": ("C21", "a blank or comment-only line between two lines of one rule (file processed block by block)", ["C21"]),
  "C21-m2": ("C21", "loading a file into a knowledge base that already holds rules for a predicate the file also defines (HashMap::extend replaces)", ["C21"]),
- "C22-m1": ("C22", "a timed-out solve/solve_all, then a ground query built with the constructors and run with next_solution (ground queries skip start_query)", ["C22"]),
- "C22-m2": ("C22", "a particular interleaving: the timer of a finished query fires while cancel fails, and the later query (next_solution) was built before the stale callback stored its stop request (epoch only advanced when stopped)", ["C22"]),
+ "C22-m2": ("C22", "a particular interleaving: the timer of a finished query fires while cancel fails, and the later query (next_solution) was built before the stale callback stored its stop request (epoch only advanced when stopped); on the repaired tree solve/solve_all end their own epoch, so it needs an earlier session that manages its own timer around next_solution", ["C22"]),
  "C23-m1": ("C23", "a search that exceeds the limit and is truncated inside not(...): solve reports the made-up answer instead of the timeout", ["C23"]),
  "C23-m2": ("C23", "a particular interleaving: query N's timer fires after query N+1 has started (callback stops 'the current query')", ["C23", "C22"]),
  "C24-m1": ("C24", "the timer thread fires while the search polls the stop flag (non-atomic read of the atomic: data race, visible only to a race detector)", ["C24"]),
@@ -111,7 +110,6 @@ SEEDS = {
  "C20-m4": ("C20", "a multi-byte character inside a complex term (char indices used as byte offsets in parse_complex)", ["C20", "C18"]),
  "C21-m3": ("C21", "a rule whose last token is a float at bracket depth 0 (the final period is swallowed, the rule merges with the next or is dropped)", ["C21"]),
  "C21-m4": ("C21", "a legal line break directly after an infix operator: =, ==, <=, >=, - (lines joined with a newline; the infix scanner wants a blank)", ["C21"]),
- "C22-m4": ("C22", "the same query text parsed a second time in one process, answered through a rule whose head variables do not line up with the query's (parse_query cache restarts ids at 0)", ["C22"]),
  "C23-m4": ("C23", "solve_all on a search that exceeds the limit where an ancestor still has an untried cheap clause: an out-of-order answer is published before the timeout message", ["C23"]),
  "C24-m3": ("C24", "an older variable bound to a newer, still unbound variable, nothing with a higher id bound yet, then a built-in dereferences it (unchecked raw read past the end of the substitution set)", ["C24"]),
  "C24-m4": ("C24", "a cut directly inside a non-last alternative of a disjunction that then fails (a &mut kept live across the recursive call in the Or code; no native symptom)", ["C24"]),
